@@ -39,6 +39,7 @@ fn filter_case(sink: &mut Sink, idx: u64, kind: &str, prog: &Prog, f: &HFilter, 
     let sent = run_sender(prog, &sites);
     let wire = through_json(&sent.events);
     let tunnel = run_receiver(&wire.events, Some(f), mode);
+    let tunnel = pick_tunnel_run(sink, tunnel, run_receiver_stale(&wire.events, Some(f), mode));
     let snap_n = snap_native(prog, &sites, Some(f));
     let snap_t = snap_tunnel(&wire.events, Some(f));
     let snap_eq = snap_n == snap_t;
